@@ -210,7 +210,15 @@ fn gen_hs(run: &mut Run, prop: &str, seed: u64, thorough: bool) {
                         for k in 0..nm {
                             let kinds = all_fault_kinds(lay[k].len(), &mut r);
                             let chosen: Vec<Fault> = match prop {
-                                "C03" | "C19" => kinds.iter().filter(|f| matches!(f, Fault::ReadTamper(_))).cloned().collect(),
+                                "C03" | "C19" => {
+                                    // alterations; and reads of the genuine message that fail for the reader's own
+                                    // reasons (then an altered message is delivered before the genuine retry)
+                                    let mut v: Vec<Fault> = kinds.iter().filter(|f| matches!(f, Fault::ReadTamper(_) | Fault::ReadCapShort(1))).cloned().collect();
+                                    if inst.msgs[k].iter().any(|t| matches!(t, Tok::Psk(_))) {
+                                        v.insert(0, Fault::MissingPsk);
+                                    }
+                                    v
+                                },
                                 "C14" => kinds.iter().filter(|f| matches!(f, Fault::WriteCapShort(_) | Fault::WriteCapInField(_) | Fault::WriteOversize | Fault::ReadCapShort(_) | Fault::ReadOversize | Fault::ReadTamper(Tamper::Truncate(_)))).cloned().collect(),
                                 // out-of-phase calls; and rejected deliveries of every kind (an altered cleartext key makes the
                                 // DH itself fail for P-256, other alterations fail authentication): the indicators are queried
